@@ -1,7 +1,7 @@
 SPEC = dict(
     props_file="C17",
     legs=[dict(family="countmin", focus="extremes", oracles=["prop_ok", "prop_layout", "no_panic"], profiles=["debug", "release"],
-               n_quick=150, n_thorough=1500, panic_is_violation=True)],
+               n_quick=100, n_thorough=1000, panic_is_violation=True)],
     level_text="Theorems (Props/C17.v and its parts): per family, the model - with the crate's fixed-width arithmetic written out where the "
                "crate uses narrow types (Stuck on overflow = the debug profile's overflow check) - never reaches a modelled panic site on any "
                "valid program over the public API (constructor arguments in their documented ranges, compatible merge partners, decay "
